@@ -91,6 +91,7 @@ def handle (prop : String) (line : String) : String :=
       | "file" => opFile args res
       | "pix" => opPix args res
       | "pixframe" => opPixFrame args res
+      | "pixh" => opPixH args res
       | "pushbits" => opPushBits args res
       | "threads" => opThreads args res
       | "wasmqr" => opWasmQr args res
